@@ -54,4 +54,16 @@ def gscanFramesOk (env : Env) (a : Arch) : Bool → List ScFr → Bool
     decide (4096 ≤ c.ret) && decide (c.ret ≤ a.regMax) && instrValid env a c.ret &&
     gscanFramesOk env a false rest
 
+/-- `gscanFramesOk` without the by-symbols check of the junk words: when every module starts at or
+    above 4096 a word `< 4096` is no valid instruction (`junk_not_valid`,
+    MdProofs/Lemmas/WalkGenScanJunk.lean), so this implies `gscanFramesOk` (`gscanFramesOk_of_junk`) -/
+def gscanFramesOkJ (env : Env) (a : Arch) : Bool → List ScFr → Bool
+  | _, [] => true
+  | first, c :: rest =>
+    decide (gscanSkip a first ≤ c.junk.length) && decide (c.junk.length - gscanSkip a first < gscanWindow a first) &&
+    (c.junk.drop (gscanSkip a first)).all (fun w => decide (w < 4096)) &&
+    (c.junk.take (gscanSkip a first)).all (fun w => decide (w ≤ a.regMax)) &&
+    decide (4096 ≤ c.ret) && decide (c.ret ≤ a.regMax) && instrValid env a c.ret &&
+    gscanFramesOkJ env a false rest
+
 end MdModel.Walk
